@@ -399,6 +399,30 @@ Definition c19_stream_ok (ms : list msg) (fs : list frame) : bool :=
   forallb (fun f => existsb (fun m => keyb (mkey m) f) ms) fs
   && forallb (fun m => msg_okb m (filter (keyb (mkey m)) fs)) ms.
 
+(* What ONE subscriber of the stream received, against the complete stream
+   [ref]: for every (id, type) it saw a frame of, its frames are a gap-free
+   run of that message's frames (it may have joined late or been cut off; it
+   must not have a hole). *)
+Fixpoint prefixb (a l : list frame) : bool :=
+  match a, l with
+  | [], _ => true
+  | x :: a', y :: l' => frame_eqb x y && prefixb a' l'
+  | _ :: _, [] => false
+  end.
+
+Fixpoint segmentb (a l : list frame) : bool :=
+  prefixb a l || match l with [] => false | _ :: l' => segmentb a l' end.
+
+Fixpoint dedup_keys (ks : list (bytes * N)) : list (bytes * N) :=
+  match ks with
+  | [] => []
+  | k :: t => if existsb (key_eqb k) t then dedup_keys t else k :: dedup_keys t
+  end.
+
+Definition c19_subscriber_ok (ref got : list frame) : bool :=
+  forallb (fun k => segmentb (filter (keyb k) got) (filter (keyb k) ref))
+          (dedup_keys (map fkey got)).
+
 (* passthrough: what the consumer got from the wrapper vs what the body gave *)
 Definition rerr_eqb (a b : rerr) : bool :=
   match a, b with RNil, RNil | REof, REof | ROther, ROther => true | _, _ => false end.
